@@ -1,6 +1,7 @@
 import Prism.Proofs.C18
 import Prism.Proofs.C18Body
 import Prism.Proofs.C18BodyJpeg
+import Prism.Proofs.C18BodyWebp
 
 #print axioms Prism.C18_pulled_bound
 #print axioms Prism.C18_within_64k
@@ -10,3 +11,7 @@ import Prism.Proofs.C18BodyJpeg
 #print axioms Prism.C18_auto_within_64k
 #print axioms Prism.Png.C18_png_body_unread
 #print axioms Prism.Jpeg.C18_jpeg_body_unread
+#print axioms Prism.Webp.C18_webp_vp8_body_unread
+#print axioms Prism.Webp.C18_webp_vp8l_body_unread
+#print axioms Prism.Webp.C18_webp_vp8x_body_unread
+#print axioms Prism.Webp.C18_webp_iccp_body_unread
